@@ -1,6 +1,7 @@
 package c09
 
 import (
+	"crypto/cipher"
 	"bytes"
 	"fmt"
 
@@ -11,8 +12,14 @@ import (
 	"verif/harness/vf"
 )
 
+// fixedRand: every RandomStream() call returns a fresh stream from the same seed, so that a re-run of a case
+// sees the same commitments (the default suite draws from crypto/rand).
+type fixedRand struct{ cosi.Suite }
+
+func (f fixedRand) RandomStream() cipher.Stream { return alpha.Stream("c09-cosi-randomness") }
+
 func cosiKeys(n int) (cosi.Suite, []kyber.Scalar, []kyber.Point) {
-	ed := edwards25519.NewBlakeSHA256Ed25519()
+	ed := fixedRand{edwards25519.NewBlakeSHA256Ed25519()}
 	var privs []kyber.Scalar
 	var pubs []kyber.Point
 	for i := 0; i < n; i++ {
